@@ -237,7 +237,8 @@ def check_C01(tier, rng, rep):
     # (d) code -> spec: recorded random programs validated by TLC
     trace_engine(rep, [rng.choice(U2[2:]), rng.choice(["U3hole", "U3chain"])] if quick else U2[2:] + U3, ["poly-frac", "poly-float"] if quick else POLY + CURVED[:2],
                  ntr=16 if quick else 60, nsteps=10, acts_for_prop={"Bin", "Inv"}, gens=(), maxframe=0)
-    suite_traces(rep, kinds={"bin", "inv"})
+    if not quick:
+        suite_traces(rep, kinds={"bin", "inv"})      # quick tier: the suite traces are validated by C08
     rep.assumptions += [
         "witness points are classified in the rational pre-image of the realisation (exact); projection uses one witness per inner cell plus far points",
         "operands of the one-step corpus are built with the direct constructors (C19's subject)",
@@ -540,7 +541,7 @@ def check_C10(tier, rng, rep):
     un = "U2cross" if quick else "U2cross"
     rep.add_tlc("ShapeSys/%s/r2" % un, models.shapesys_check(un, regs=2, maxobj=4, gens=("s1", "S1"), maxframe=1,
                                                               props=["OperandsUnchanged"], invs=["TypeOK", "Canonical"],
-                                                              acts=("make", "bin", "query", "transform", "copy")))
+                                                              acts=("make", "bin", "query", "transform")))
     acts = ("make", "mkreg", "bin", "inv", "copy", "invert", "transform", "query", "alias")
     o = {"check_c10": True, "record_obs": True}
     sims, jobs = sim_jobs([rng.choice(U2[2:]), rng.choice(U3)] if quick else U2 + U3, ["poly-frac", "poly-float", "quad-float"] if quick else POLY + CURVED,
@@ -555,7 +556,7 @@ def check_C10(tier, rng, rep):
     history_sims(rep, rng, quick, props=ALLP | {"C10"}, c10=True, num=100)
     # the same behaviours in fresh interpreters: other hash seeds, cold and pre-warmed
     # module-level memo tables; observation logs must be identical
-    sub = runner.sample(list(range(len(jobs))), 24 if quick else 120, rng)
+    sub = runner.sample(list(range(len(jobs))), 16 if quick else 120, rng)
     base = {res[i]["case"] + "/" + jobs[i][1]: res[i] for i in sub}
     chunks = [(hs, warm) for hs, warm in ((1, False), (2, True))]
     import concurrent.futures as cf
